@@ -25,7 +25,7 @@ import tempfile
 from harness.lib import hx, zl, cz, cbool, clist
 
 ID = 'C20'
-RULE = ('registry of public functions x generated arguments (text numbers with -, +, scientific floats, empty fields; '
+RULE = ('registry of 98 public functions x generated arguments (text numbers with -, +, scientific floats, empty fields; '
         'intervals; sequences; tables; genomic data) in four memory layouts (fresh, row-slice view, column-slice view, '
         'field of a file chunk); every lazily read format with all fields inspected; plus one static case per '
         'in-place-writing site.  non-trivial = the call returned without exception and the arguments reach at least '
@@ -33,10 +33,21 @@ RULE = ('registry of public functions x generated arguments (text numbers with -
 EXHAUSTIVE = {'quick': False, 'thorough': False}
 TIE = 'effect-program translator (Gen/C20.v regenerated every run) + correspondence'
 ASSUMPTIONS = ['writes inside NumPy / npstructures follow the aliasing classes of the extractor table; every class the '
-               'extractor relied on is probed at run time with np.shares_memory (kind "probe" cases)',
-               'the walker reaches every buffer of an argument through __dict__/__slots__ of bionumpy and npstructures objects']
-PARTIAL = ['the effect extractor does not descend into NumPy/npstructures; calls to unregistered bionumpy helpers are '
-           'treated as aliasing all their arguments (sound, imprecise)']
+               'extractor relied on is probed at run time with np.shares_memory / write-through tests (probe case)',
+               'the snapshot walker reaches every buffer of an argument: cross-checked on every run against generic gc '
+               'reachability (gc.get_referents) for one argument tuple of every registered function and a lazily read chunk of '
+               'every format (probe flag walker_complete)',
+               'buffers longer than 24 bytes are compared inside Coq through a 16-byte SHA-256 prefix (full bytes in the replay)',
+               'every in-place write of the 8 anchored files is inside a function the extractor analysed (Gen/C20.v, proved safe '
+               'in Bridge/C20.v) or in the accepted list ACCEPTED_WRITES with its reason (probe flag no_unregistered_write)']
+PARTIAL = ['THIN MODEL for call and chunk cases: the model of a registered call / of inspecting a chunk is "nothing changes" '
+           '(plus flatten;view for the genotype encodings); model_ok there adds nothing to spec_ok. What carries those cases is '
+           'spec_ok = snapshot comparison decided in Coq, i.e. differential testing over the registry, not proof',
+           'the proofs are about effect programs; that the AST extractor renders the Python source faithfully is trusted (fail-closed '
+           'rules, run-time probes of its tables, mutation self-test); it does not descend into NumPy/npstructures',
+           'unclassified operations are over-approximated (write to every argument, alias of all) rather than rejected',
+           'registry: see notes/C20.md for the public names not exercised (file-path / plotting / CLI / configuration helpers, '
+           'BAM, Matrix, MultiStream, compute graphs)']
 PER_FILE = 40
 
 # =============================================================================================== snapshots
@@ -250,8 +261,6 @@ def registry():
                   lambda t: strops.split(t, sep=','))
     R['str_equal'] = (lambda v: (T(v), v['strs'][0] if v['strs'] else 'a'), strops.str_equal)
     R['str_equal_rr'] = (lambda v: (T(v), _text(list(reversed(v['strs'])), 'fresh')), strops.str_equal)
-    R['split_ints'] = (lambda v: (T(v),),   # the list-column parser used by Bed12 / VCF info
-                       lambda t: _split_ints(t))
     # ---- encodings
     R['as_encoded_array_dna'] = (lambda v: (T(v),), lambda t: as_encoded_array(t, bnp.DNAEncoding))
     R['change_encoding'] = (lambda v: (_text(v['strs'], v.get('layout', 'fresh'), bnp.DNAEncoding),),
@@ -321,9 +330,89 @@ def registry():
     R['table_add_fields'] = (lambda v: (IV(v),), lambda t: t.add_fields({'extra': [int(x) for x in range(len(t))]}, field_type_map={'extra': int}))
     R['table_todict'] = (lambda v: (SIV(v),), lambda t: t.todict())
     R['table_write'] = (lambda v: (SIV(v),), _write_table)
+    # ---- widened registry (phase 3): reductions, grouping, lookups, remaining sequence / genomic / encoding API
+    from bionumpy.streams import NpDataclassStream, BnpStream
+    from bionumpy.datatypes import LocationEntry
+    IA = lambda v: np.array([abs(x) % 50 for x in v['ints']], dtype=int)
+    R['bincount'] = (lambda v: (IA(v),), lambda a: bnp.bincount(a))
+    R['histogram'] = (lambda v: (np.array(v['floats'], dtype=float),), lambda a: bnp.histogram(a, bins=3, range=(-3.0, 3.0)))
+    R['mean'] = (lambda v: (np.array(v['floats'], dtype=float),), lambda a: bnp.mean(a))
+    R['quantile'] = (lambda v: (IA(v),), lambda a: bnp.quantile(a, np.array([0.5])))
+    R['stream_bincount'] = (lambda v: (IA(v), IA(v)[::-1].copy()), lambda a, b: bnp.bincount(BnpStream(iter([a, b])), minlength=50))
+    R['groupby'] = (lambda v: (IV(v),), lambda t: [(k, g) for k, g in bnp.groupby(t, 'chromosome')])
+    R['ragged_slice'] = (lambda v: (T(v),), lambda t: bnp.ragged_slice(t, starts=np.ones(len(t), dtype=int)))
+    R['ragged_slice_ends'] = (lambda v: (T(v),), lambda t: bnp.ragged_slice(t, np.zeros(len(t), dtype=int), np.ones(len(t), dtype=int)))
+    R['encoded_lookup'] = (lambda v: (D(v), np.arange(4) * 10), lambda s, vals: bnp.EncodedLookup(vals, bnp.DNAEncoding)[s.ravel()])
+    R['encoded_counts'] = (lambda v: (D(v),), lambda s: [(sq.count_encoded(s.ravel()) + sq.count_encoded(s.ravel())).counts,
+                                                       (sq.count_encoded(s, axis=-1) + 1).counts])
+    R['get_sequences'] = (lambda v: (D(v).ravel(), _sub_intervals(v)), sq.get_sequences)
+    R['get_strand_specific_sequences'] = (lambda v: (D(v).ravel(), _sub_intervals(v, True)), sq.get_strand_specific_sequences)
+    R['indexed_fasta_intervals'] = (lambda v: (_sub_intervals(v, chrom='s0'),), lambda iv: _indexed_fasta(v_last[0], iv))
+    R['genome_get_locations'] = (lambda v: (LocationEntry.from_entry_tuples([(c, s) for c, s, e, st in v['rows']]),),
+                                 lambda l: _genome().get_locations(l).get_windows(flank=2))
+    R['gl_sorted'] = (lambda v: (_genome().get_locations(LocationEntry.from_entry_tuples([(c, s) for c, s, e, st in v['rows']])),),
+                      lambda g: g.sorted())
+    R['gi_map_locations'] = (lambda v: (GU(v), LocationEntry.from_entry_tuples([(c, s) for c, s, e, st in v['rows']])),
+                             lambda g, l: g.map_locations(l))
+    R['gi_from_fields'] = (lambda v: (IV(v),), lambda t: bnp.GenomicIntervals.from_fields(
+        _genome().get_genome_context(), t.chromosome, t.start, t.stop).get_data())
+    R['genomic_sequence_extract'] = (lambda v: (GI(v),), lambda g: _genomic_sequence()[g])
+    R['binned_genome_count'] = (lambda v: (LocationEntry.from_entry_tuples([(c, s) for c, s, e, st in v['rows']]),),
+                                lambda l: _binned(l))
+    R['ga_index'] = (lambda v: (GU(v).get_pileup(), GU(v).get_mask()), lambda a, m: [a[m].sum() if hasattr(a[m], 'sum') else 0, (a * 2 + a).to_dict(), a.get_data()])
+    R['stream_reverse_complement'] = (lambda v: (D(v), D(v)), lambda a, b: list(sq.get_reverse_complement(BnpStream(iter([a, b])))))
+    from bionumpy import encodings as E
+    for _nm, _enc, _fam in [('acgtn', E.ACGTnEncoding, 'dna'), ('rna', E.RNAENcoding, 'rna'), ('amino', E.AminoAcidEncoding, 'amino'),
+                            ('strand', E.StrandEncoding, 'strand'), ('digit', E.DigitEncoding, 'digit'), ('quality', E.QualityEncoding, 'qual')]:
+        R['encode_' + _nm] = (lambda v: (T(v),), (lambda enc: lambda t: as_encoded_array(t, enc))(_enc))
+        R['decode_' + _nm] = ((lambda enc: lambda v: (as_encoded_array(T(v), enc),))(_enc),
+                              (lambda enc: lambda t: [enc.decode(t.ravel()) if hasattr(enc, 'decode') else None, change_encoding(t, BaseEncoding) if _nm != 'quality' else None])(_enc))
     return R
 
 
+
+
+v_last = [None]
+
+
+def _sub_intervals(v, stranded=False, chrom='chr1'):
+    """Intervals inside the concatenated sequence of v['strs'] (for get_sequences and the indexed FASTA)."""
+    import numpy as np
+    from bionumpy.datatypes import Interval, Bed6
+    total = sum(len(s) for s in v['strs'])
+    first = len(v['strs'][0])
+    lim = first if chrom == 's0' else total
+    rows = [(chrom, 0, lim), (chrom, min(1, lim - 1), lim), (chrom, 0, max(1, lim - 1))]
+    v_last[0] = v
+    if stranded:
+        return Bed6.from_entry_tuples([(c, s, e, 'n', 0, '+-'[i % 2]) for i, (c, s, e) in enumerate(rows)])
+    return Interval.from_entry_tuples(rows)
+
+
+def _indexed_fasta(v, iv):
+    import bionumpy as bnp
+    d = tempfile.mkdtemp(prefix='c20_')
+    try:
+        p = os.path.join(d, 'g.fa')
+        with open(p, 'w') as f:
+            for i, s in enumerate(v['strs']):
+                f.write('>s%d\n%s\n' % (i, s))
+        fa = bnp.open_indexed(p)
+        return [fa.get_interval_sequences(iv), fa['s0']]
+    finally:
+        shutil.rmtree(d, ignore_errors=True)
+
+
+def _genomic_sequence():
+    from bionumpy.genomic_data import GenomicSequence
+    return GenomicSequence.from_dict({'chr1': 'ACGT' * 15, 'chr2': 'GGCA' * 10, 'chr3': 'T' * 25})
+
+
+def _binned(l):
+    from bionumpy.genomic_data import BinnedGenome
+    b = BinnedGenome(_genome().get_genome_context(), bin_size=10)
+    b.count(l)
+    return b.count_dict
 
 
 def _split_ints(t):
@@ -631,6 +720,7 @@ class Extractor:
         self.frozen = 0                      # >0 while inside a conditional branch: no flatten of outer registers
         self.branch_born = 0                 # first register created inside the outermost enclosing branch
         self.fresh = set()                   # registers holding newly allocated values
+        self.visited = set()                 # (module, qualname) of every function whose body was analysed
 
     # ---- emit
     def alloc(self):
@@ -682,6 +772,7 @@ class Scope:
         self.ex, self.module, self.cls, self.depth = ex, module, cls, depth
         self.env = {}        # name -> register | ('func', callable)
         self.arr = set()     # names known to hold index arrays (masks / integer arrays made in this function)
+        self.npfuncs = set() # names bound to NumPy functions (op = np.add if .. else np.logical_xor)
         self.returns = []
         self.born = ex.nreg  # registers >= born were created inside this function (or its callees)
 
@@ -857,6 +948,18 @@ class Scope:
                 return ex.alloc()
             # ---- method call
             m = f.attr
+            if m in ('accumulate', 'reduce', 'reduceat', 'outer', 'at') and isinstance(root, ast.Name) \
+                    and root.id in self.npfuncs and len(chain) == 1:
+                # a NumPy ufunc held in a local name (op = np.add if .. else np.logical_xor): ufunc-method semantics
+                pos, kw = self.args_of(n)
+                ex.probes.add('np_fresh_func')
+                if kw.get('out') is not None:
+                    ex.write(kw['out'])
+                    return ex.view(False, [kw['out']])
+                if m == 'at':
+                    ex.write(pos[0] if pos else None)
+                    return None
+                return ex.alloc()
             if m == '__class__':
                 pos, kw = self.args_of(n)
                 ex.probes.add('wrap_ctor')
@@ -906,6 +1009,12 @@ class Scope:
             kw = {k: (None if isinstance(v, tuple) else v) for k, v in fkw.items()}
             if isinstance(bound, tuple) and bound[0] == 'func':
                 return inline(ex, bound[1], fpos, fkw, self.depth + 1, None)
+            if name in self.npfuncs and not isinstance(bound, int):
+                ex.probes.add('np_fresh_func')                                      # a NumPy ufunc held in a local name
+                if kw.get('out') is not None:
+                    ex.write(kw['out'])
+                    return ex.view(False, [kw['out']])
+                return ex.alloc()
             if name == 'self' and self.cls is not None and self.depth < MAX_DEPTH and not isinstance(bound, tuple):
                 fn = _unwrap(getattr(self.cls, '__call__', None))
                 if fn is not None:
@@ -915,6 +1024,9 @@ class Scope:
             if name in ('unsafe_extend_right', 'unsafe_extend_left'):
                 ex.probes.add('unsafe_extend')
                 return ex.alloc()                                                   # npstructures 0.2.19: np.append / np.insert (probed)
+            if name in ('next', 'iter', 'reversed', 'getattr'):
+                rs = [r for r in pos if r is not None]
+                return ex.view(False, rs) if rs else None
             if name in PURE_BUILTINS:
                 return ex.alloc() if name in ('list', 'dict', 'set', 'tuple', 'sorted') else None
             if name in SAME_OBJECT_FUNCS:
@@ -938,6 +1050,10 @@ class Scope:
             if name in ('RaggedShape', 'RaggedView', 'RaggedView2'):
                 return ex.alloc()
             target = getattr(self.module, name, None)
+            if name == 'cls' and self.cls is not None and not isinstance(bound, (int, tuple)):
+                target = self.cls
+            if inspect.isclass(target):
+                return self.construct(target, fpos, fkw)
             fn = _unwrap(target)
             if (fn is None or fn.__name__ != name) and target is not None and not inspect.isclass(target):
                 tm = inspect.getmodule(target) if inspect.getmodule(target) and inspect.getmodule(target).__name__.startswith('bionumpy') else self.module
@@ -956,6 +1072,21 @@ class Scope:
         pos, kw = self.args_of(n)
         return self.unknown_call(n, pos + list(kw.values()))
 
+    def construct(self, klass, fpos, fkw):
+        """A class instantiated: the new object references its arguments; the effects of a bionumpy __init__ are inlined."""
+        ex = self.ex
+        regs = [r for r in list(fpos) + list(fkw.values()) if isinstance(r, int)]
+        init = _unwrap(inspect.getattr_static(klass, '__init__', None)) if (klass.__module__ or '').startswith('bionumpy') else None
+        if init is not None and self.depth < MAX_DEPTH:
+            try:
+                _fn_ast(init)
+            except Exception:
+                init = None               # generated __init__ (dataclass): stores its arguments
+            if init is not None:
+                inline(ex, init, [None] + list(fpos), fkw, self.depth + 1, klass)
+        ex.probes.add('wrap_ctor')
+        return ex.view(False, regs) if regs else ex.alloc()
+
     def unknown_call(self, n, regs):
         """Fail-closed: an unclassified callee may write every argument and return an alias of any of them."""
         ex = self.ex
@@ -969,8 +1100,22 @@ class Scope:
         return ex.view(False, regs) if regs else ex.alloc()
 
     # ---------------------------------------------------------------- statements
+    def is_np_func(self, n):
+        if isinstance(n, ast.IfExp):
+            return self.is_np_func(n.body) and self.is_np_func(n.orelse)
+        if isinstance(n, ast.Attribute):
+            root = n
+            while isinstance(root, ast.Attribute):
+                root = root.value
+            return isinstance(root, ast.Name) and root.id in ('np', 'numpy') and root.id not in self.env
+        return isinstance(n, ast.Name) and n.id in self.npfuncs
+
     def bind(self, target, r, value=None):
         if isinstance(target, ast.Name):
+            if value is not None and self.is_np_func(value):
+                self.npfuncs.add(target.id)
+            else:
+                self.npfuncs.discard(target.id)
             if r is None:
                 self.env.pop(target.id, None)
             else:
@@ -1010,6 +1155,8 @@ class Scope:
         ex = self.ex
         before = dict(self.env)
         arr0 = set(self.arr)
+        npf0 = set(self.npfuncs)
+        npfs = []
         envs = []
         if ex.frozen == 0:
             ex.branch_born = ex.nreg
@@ -1017,8 +1164,10 @@ class Scope:
         for b in bodies:
             self.env = dict(before)
             self.arr = set(arr0)
+            self.npfuncs = set(npf0)
             self.block(b)
             envs.append((self.env, self.arr))
+            npfs.append(self.npfuncs)
         ex.frozen -= 1
         out = {}
         for k in set().union(*[set(e) for e, _ in envs]):
@@ -1034,6 +1183,7 @@ class Scope:
                     out[k] = funcs[0]
         self.env = out
         self.arr = set.intersection(*[a for _, a in envs]) if envs else arr0
+        self.npfuncs = set.intersection(*npfs) if npfs else npf0
 
     def stmt(self, s):
         ex = self.ex
@@ -1164,6 +1314,7 @@ def inline(ex, fn, pos, kw, depth, cls):
     node = _fn_ast(fn)
     if not isinstance(node, ast.FunctionDef):
         return ex.view(False, [r for r in pos if r is not None])
+    ex.visited.add((fn.__module__, fn.__qualname__.replace('<locals>.', '')))
     module = sys.modules[fn.__module__]
     if cls is None and '.' in fn.__qualname__:
         c = getattr(module, fn.__qualname__.split('.')[0], None)
@@ -1239,6 +1390,46 @@ SITES = {
     21: dict(name='chunk_float_column', np=1, steps=[
         ('bionumpy.io.file_buffers:TextBufferExtractor.get_field_by_number', ['p0', None, None]),
         ('bionumpy.io.strops:str_to_float', ['r0'])]),
+    # phase 3: the remaining functions of the anchored files that write in place (found by scan_tree)
+    22: dict(name='intersect', np=2, steps=[('bionumpy.arithmetics.intervals:intersect', ['p0', 'p1'])]),
+    23: dict(name='global_intersect', np=2, steps=[('bionumpy.arithmetics.intervals:global_intersect', ['p0', 'p1'])]),
+    24: dict(name='pileup', np=1, steps=[('bionumpy.arithmetics.intervals:pileup', ['p0'])]),
+    25: dict(name='rle_from_intervals', np=3, steps=[('bionumpy.arithmetics.intervals:GenomicRunLengthArray.from_intervals', [None, 'p0', 'p1', None, 'p2', None])]),
+    26: dict(name='rle_to_array', np=1, steps=[('bionumpy.arithmetics.intervals:GenomicRunLengthArray.to_array', ['p0'])]),
+    27: dict(name='phased_haplotype_encode', np=1, steps=[('bionumpy.encodings.vcf_encoding:_PhasedHaplotypeRowEncoding.encode', [None, 'p0'])]),
+    28: dict(name='phased_genotype_encode', np=1, steps=[('bionumpy.encodings.vcf_encoding:_PhasedGenotypeRowEncoding.encode', [None, 'p0'])]),
+    29: dict(name='genotype_decode', np=1, steps=[('bionumpy.encodings.vcf_encoding:_GenotypeRowEncoding.decode', [None, 'p0'])]),
+    30: dict(name='delimited_from_raw_buffer', np=1, steps=[('bionumpy.io.delimited_buffers:DelimitedBuffer.from_raw_buffer', [None, 'p0', None])]),
+    32: dict(name='internal_comments_extractor', np=2, steps=[('bionumpy.io.delimited_buffers:DelimitedBufferWithInernalComments._get_buffer_extractor', [None, 'p0', 'p1'])]),
+    33: dict(name='wierd_padding', np=1, steps=[('bionumpy.io.file_buffers:wierd_padding', ['p0', None])]),
+}
+
+# In-place writes of the anchored files that are NOT inside a function analysed by the extractor, each with the reason
+# why it is accepted.  Keys as produced by scan_file.  A write with any other key in an anchored file (and outside the
+# analysed functions) makes the `probe` case fail (flag no_unregistered_write): fail closed.
+ACCEPTED_WRITES = {
+    'bnpdataclass/lazybnpdataclass.py::ItemGetter.__call__::augassign::e': 'line number of an exception object',
+    'bnpdataclass/lazybnpdataclass.py::create_lazy_class.NewClass.__getattr__::setitem::self':
+        'field cache of the lazy table itself (self._computed_values); observed by every chunk case (written bytes, re-parse)',
+    'bnpdataclass/lazybnpdataclass.py::create_lazy_class.NewClass.__setattr__::setitem::self':
+        'explicit attribute assignment, excluded by the property; keeps the value in self._set_values, apart from the buffer',
+    'bnpdataclass/lazybnpdataclass.py::create_lazy_class::setattr::NewClass': 'name of a class created in the call',
+    'encoded_array.py::EncodedLookup.__setitem__::setitem::self': 'explicit item assignment, excluded by the property',
+    'encoded_array.py::EncodedRaggedArray._proper_repr::setitem::lines': 'a list of strings built in the call',
+    'encodings/vcf_encoding.py::GenotypeBuffer._preprocess_data_for_encoding::call.replace_inplace::data':
+        'dead code: class GenotypeBuffer is neither exported nor used anywhere in bionumpy',
+    'encodings/vcf_encoding.py::GenotypeBuffer::setitem::_lookup': 'class-level lookup table filled at import',
+    'encodings/vcf_encoding.py::_GenotypeRowEncoding::setitem::_alphabet_lookup': 'class-level lookup table filled at import',
+    'encodings/vcf_encoding.py::_PhasedHaplotypeRowEncoding::setitem::_alphabet_lookup': 'class-level lookup table filled at import',
+    'io/delimited_buffers.py::DelimitedBuffer.get_data::setitem::columns':
+        'a dict of parsed columns built in the call (eager parse; every eager chunk case observes its buffer)',
+    'io/delimited_buffers.py::GfaPathBuffer.get_data::setitem::nodes_lists':
+        'unreachable: get_text(.., keep_sep=True) fails its own assertion `not keep_sep` before the write',
+    'io/delimited_buffers.py::get_bufferclass_for_datatype::setattr::DatatypeBuffer': 'name of a class created in the call',
+    'io/file_buffers.py::FileBuffer._move_2d_array_to_intervals::setitem::self':
+        'private writer into the buffer, referenced only from commented-out code in io/_legacy.py',
+    'io/file_buffers.py::FileBuffer._move_intervals_to_ragged_array::setattr::e': 'flag on an object created in the call',
+    'io/strops.py::replace_inplace::setitem::number_text': 'the explicit in-place API (named so); no caller left in bionumpy',
 }
 
 
@@ -1276,12 +1467,14 @@ def extract_site(sid):
             else:
                 pos2.append(v)
         results.append(_inline_with_funcs(ex, fn, pos2, kw, cls))
-    return dict(np=spec['np'], prog=prune(spec['np'], ex.ins), full_len=len(ex.ins), probes=sorted(ex.probes), unknown=sorted(set(ex.unknown)))
+    return dict(np=spec['np'], prog=prune(spec['np'], ex.ins), full_len=len(ex.ins), probes=sorted(ex.probes), unknown=sorted(set(ex.unknown)),
+                visited=sorted('%s:%s' % v for v in ex.visited))
 
 
 def _inline_with_funcs(ex, fn, pos, kwf, cls):
     import sys
     node = _fn_ast(fn)
+    ex.visited.add((fn.__module__, fn.__qualname__.replace('<locals>.', '')))
     module = sys.modules[fn.__module__]
     if cls is None and '.' in fn.__qualname__ and '<locals>' not in fn.__qualname__:
         c = getattr(module, fn.__qualname__.split('.')[0], None)
@@ -1444,11 +1637,21 @@ def _observe_probe(case):
     F['ragged_slice'] = not np.shares_memory(rs.ravel().raw(), rb.ravel().raw())
     F['unsafe_extend'] = not np.shares_memory(unsafe_extend_right(a[:5]), a)
     F['arith'] = (not np.shares_memory(a, a + 1)) and (not np.shares_memory(a, a == 1)) and (not np.shares_memory(a, ~m))
-    return dict(flags=F)
+    out = dict(flags=F)
+    # every in-place write of the anchored files is inside a function the extractor analysed, or accepted by name
+    unreg = unregistered_writes()
+    F['no_unregistered_write'] = not unreg
+    out['unregistered_writes'] = unreg
+    # the snapshot walker reaches every buffer that generic (gc) reachability finds
+    missed = walker_gaps()
+    F['walker_complete'] = not missed
+    out['walker_missed'] = missed[:20]
+    return out
 
 
 PROBE_NAMES = ['fancy_index', 'ragged_basic_index_is_cow', 'basic_index', 'ravel', 'same_object', 'np_fresh_func',
-               'np_view_func', 'fresh_method', 'ragged_view_ctor', 'wrap_ctor', 'ragged_slice', 'unsafe_extend', 'arith']
+               'np_view_func', 'fresh_method', 'ragged_view_ctor', 'wrap_ctor', 'ragged_slice', 'unsafe_extend', 'arith',
+               'no_unregistered_write', 'walker_complete']
 
 
 # =============================================================================================== generator
@@ -1463,6 +1666,12 @@ FAMILY = {
     'phased_haplotype_encode': 'geno_phased', 'get_kmers': 'dna', 'count_kmers': 'dna', 'get_minimizers': 'dna5',
     'match_string': 'dna', 'reverse_complement': 'dna', 'reverse_complement_ascii': 'dna', 'count_encoded': 'dna',
     'translate': 'dna3', 'translate_entries': 'dna3', 'motif_scores': 'dna',
+    'bincount': 'ints', 'quantile': 'ints', 'stream_bincount': 'ints', 'histogram': 'floats', 'mean': 'floats',
+    'ragged_slice': 'text', 'ragged_slice_ends': 'text', 'encoded_lookup': 'dna', 'encoded_counts': 'dna',
+    'get_sequences': 'dna', 'get_strand_specific_sequences': 'dna', 'indexed_fasta_intervals': 'dna',
+    'stream_reverse_complement': 'dna', 'encode_acgtn': 'dnan', 'decode_acgtn': 'dnan', 'encode_rna': 'rna', 'decode_rna': 'rna',
+    'encode_amino': 'amino', 'decode_amino': 'amino', 'encode_strand': 'strand', 'decode_strand': 'strand',
+    'encode_digit': 'digit', 'decode_digit': 'digit', 'encode_quality': 'qual', 'decode_quality': 'qual',
 }
 
 
@@ -1491,6 +1700,10 @@ def _gen_strs(rng, fam, n):
             s = ''.join(rng.choice('ACGT') for _ in range(rng.randint(5 if fam == 'dna5' else 2, 12)))
         elif fam == 'dna3':
             s = ''.join(rng.choice('ACGT') for _ in range(3 * rng.randint(1, 4)))
+        elif fam in ('dnan', 'rna', 'amino', 'strand', 'digit', 'qual'):
+            alph = {'dnan': 'ACGTNacgtn', 'rna': 'ACGU', 'amino': 'ACDEFGHIKLMNPQRSTVWY', 'strand': '+-.', 'digit': '0123456789',
+                    'qual': '!#5I+'}[fam]
+            s = ''.join(rng.choice(alph) for _ in range(rng.randint(1, 8)))
         else:
             raise ValueError(fam)
         out.append(s)
@@ -1527,7 +1740,9 @@ def generate(tier, seed):
                               'gi_merged', 'gi_merged_d', 'gi_sorted', 'gi_pileup', 'gi_mask', 'gi_extended', 'gi_clip',
                               'gi_location', 'gi_windows', 'gi_index', 'ga_extract', 'ga_sum', 'ga_from_bedgraph',
                               'table_replace', 'table_index', 'table_concat', 'table_tolist', 'table_topandas',
-                              'table_sort_by', 'table_astype', 'table_str', 'table_add_fields', 'table_todict', 'table_write']
+                              'table_sort_by', 'table_astype', 'table_str', 'table_add_fields', 'table_todict', 'table_write',
+                              'groupby', 'genome_get_locations', 'gl_sorted', 'gi_map_locations', 'gi_from_fields',
+                              'genomic_sequence_extract', 'binned_genome_count', 'ga_index']
     for rep in range(reps):
         for fn in names:
             fam = FAMILY.get(fn)
@@ -1726,3 +1941,179 @@ def explain(case, o):
         ok, at = abstract_run(o['np'], prog)
         return dict(site=SITES[case['sid']], checker_accepts=ok, rejected_instruction=at, program=prog, unknown=o['unknown'])
     return o
+
+
+# =============================================================================================== in-place write scan
+ANCHORED = ['io/strops.py', 'io/delimited_buffers.py', 'encodings/vcf_encoding.py', 'arithmetics/intervals.py',
+            'bnpdataclass/lazybnpdataclass.py', 'io/file_buffers.py', 'sequence/translate.py', 'encoded_array.py']
+SCAN_WRITE_METHODS = {'sort', 'fill', 'resize', 'put', 'itemset', 'setfield', 'partition', 'byteswap', 'setflags'}
+SCAN_WRITE_FUNCS = {'replace_inplace', 'put', 'place', 'putmask', 'copyto', 'fill_diagonal', 'put_along_axis', 'shuffle'}
+
+
+def _root_name(n):
+    while isinstance(n, (ast.Subscript, ast.Attribute, ast.Call, ast.Starred)):
+        n = n.func if isinstance(n, ast.Call) else n.value
+    return n.id if isinstance(n, ast.Name) else type(n).__name__
+
+
+def scan_file(path, rel):
+    """Every in-place-writing statement of one source file: (key, line, text).
+    key = rel::function qualname::kind::root name of the written object (no line numbers, no full text: re-spelling a
+    known write keeps its key; a write to another object, of another kind or in another function is a new key)."""
+    tree = ast.parse(open(path).read())
+    out = []
+
+    def visit(node, qual):
+        for ch in ast.iter_child_nodes(node):
+            if isinstance(ch, (ast.FunctionDef, ast.AsyncFunctionDef, ast.ClassDef)):
+                visit(ch, qual + [ch.name])
+                continue
+            kinds = []
+            if isinstance(ch, (ast.Assign, ast.AnnAssign)):
+                tg = ch.targets if isinstance(ch, ast.Assign) else [ch.target]
+                flat = []
+                for t in tg:
+                    flat += list(t.elts) if isinstance(t, (ast.Tuple, ast.List)) else [t]
+                for t in flat:
+                    if isinstance(t, ast.Subscript):
+                        kinds.append(('setitem', _root_name(t)))
+                    elif isinstance(t, ast.Attribute) and _root_name(t) not in ('self', 'cls'):
+                        kinds.append(('setattr', _root_name(t)))
+            elif isinstance(ch, ast.AugAssign):
+                kinds.append(('augassign', _root_name(ch.target)))
+            for sub in ast.walk(ch) if not isinstance(ch, (ast.If, ast.For, ast.While, ast.With, ast.Try)) else []:
+                if isinstance(sub, ast.Call):
+                    if any(k.arg == 'out' for k in sub.keywords):
+                        o = [k.value for k in sub.keywords if k.arg == 'out'][0]
+                        kinds.append(('out=', _root_name(o)))
+                    f = sub.func
+                    if isinstance(f, ast.Attribute) and f.attr in SCAN_WRITE_METHODS and _root_name(f.value) not in ('np', 'numpy'):
+                        kinds.append(('method.' + f.attr, _root_name(f.value)))
+                    name = f.attr if isinstance(f, ast.Attribute) else f.id if isinstance(f, ast.Name) else None
+                    if name in SCAN_WRITE_FUNCS and (isinstance(f, ast.Name) or _root_name(f) in ('np', 'numpy', 'strops')):
+                        kinds.append(('call.' + name, _root_name(sub.args[0]) if sub.args else '?'))
+                    if name == 'at' and isinstance(f, ast.Attribute) and _root_name(f) in ('np', 'numpy'):
+                        kinds.append(('ufunc.at', _root_name(sub.args[0]) if sub.args else '?'))
+            for k, root in kinds:
+                try:
+                    text = ast.unparse(ch).split('\n')[0][:120]
+                except Exception:
+                    text = type(ch).__name__
+                out.append(('%s::%s::%s::%s' % (rel, '.'.join(qual) or '<module>', k, root), ch.lineno, text))
+            if isinstance(ch, (ast.If, ast.For, ast.While, ast.With, ast.Try, ast.ExceptHandler)) or not isinstance(ch, ast.stmt):
+                visit(ch, qual)
+    visit(tree, [])
+    return out
+
+
+def scan_tree(pkg_dir, files=None):
+    res = []
+    if files is None:
+        files = []
+        for d, _, fs in os.walk(pkg_dir):
+            for f in fs:
+                if f.endswith('.py'):
+                    files.append(os.path.relpath(os.path.join(d, f), pkg_dir))
+    for rel in sorted(files):
+        p = os.path.join(pkg_dir, rel)
+        if os.path.exists(p):
+            try:
+                res += scan_file(p, rel)
+            except SyntaxError:
+                res.append(('%s::<unparsable>::?::?' % rel, 0, ''))
+        else:
+            res.append(('%s::<missing>::?::?' % rel, 0, ''))
+    return res
+
+
+def unregistered_writes():
+    """In-place writes of the anchored files (current tree) outside every analysed function and not in ACCEPTED_WRITES."""
+    import bionumpy
+    pkg = os.path.dirname(bionumpy.__file__)
+    visited = set()
+    for sid in sorted(SITES):
+        try:
+            for v in extract_site(sid)['visited']:
+                m, q = v.split(':')
+                visited.add((m.replace('bionumpy.', '', 1).replace('.', '/') + '.py', q))
+        except Exception:
+            pass                                  # a site that cannot be extracted analyses nothing (and fails elsewhere)
+    out = []
+    for key, line, text in scan_tree(pkg, ANCHORED):
+        rel, fn, kind, root = key.split('::')
+        if (rel, fn) in visited or key in ACCEPTED_WRITES:
+            continue
+        out.append('%s (line %d: %s)' % (key, line, text))
+    return out
+
+
+def _gc_arrays(obj, limit=50000):
+    """Every ndarray that Python's own reachability (gc.get_referents) finds from obj, not passing through classes,
+    modules, functions or code — an independent traversal to cross-check _walk."""
+    import gc
+    import types
+    import numpy as np
+    skip = (type, types.ModuleType, types.FunctionType, types.BuiltinFunctionType, types.MethodType, types.CodeType,
+            types.FrameType, str, bytes, int, float, bool, complex, np.dtype, property, staticmethod, classmethod)
+    seen, todo, found = set(), [obj], []
+    while todo and len(seen) < limit:
+        x = todo.pop()
+        if id(x) in seen or isinstance(x, skip) or x is None:
+            continue
+        seen.add(id(x))
+        if isinstance(x, np.ndarray):
+            found.append(x)
+        mod = type(x).__module__ or ''
+        if isinstance(x, (np.ndarray, list, tuple, dict, set, frozenset)) or mod.startswith('bionumpy') or mod.startswith('npstructures') \
+                or mod.startswith('functools') or mod.startswith('collections'):
+            todo.extend(gc.get_referents(x))
+    return found
+
+
+def walker_gaps():
+    """Arguments of every registry function (one fixed variant each) and lazily read chunks of every format: arrays
+    found by gc reachability that share no memory with any root the snapshot walker holds."""
+    import numpy as np
+    rng = random.Random(7)
+    missed = []
+    R = registry()
+    objs = []
+    for fn in sorted(R):
+        fam = FAMILY.get(fn)
+        try:
+            if fam == 'ints':
+                v = dict(ints=[3, -4, 50])
+            elif fam == 'lists':
+                v = dict(lists=[[1, 2], [3]])
+            elif fam == 'floats':
+                v = dict(floats=[0.5, -1.5])
+            elif fam in ('geno', 'geno_phased'):
+                v = dict(strs=_gen_geno(rng, 2, fam == 'geno_phased'), layout='rowslice')
+            elif fam is not None:
+                v = dict(strs=_gen_strs(rng, fam, 3), layout=rng.choice(['fresh', 'rowslice', 'colslice']))
+            else:
+                v = dict(rows=[r for r in _gen_rows(rng, 4) if r[0] == 'chr1'] or [['chr1', 1, 5, '+']], rows2=_gen_rows(rng, 2), layout='rowslice')
+            objs.append((fn, R[fn][0](v)))
+        except Exception as e:
+            missed.append('%s: arguments could not be built: %s' % (fn, type(e).__name__))
+    import bionumpy as bnp
+    d = tempfile.mkdtemp(prefix='c20_')
+    try:
+        for fmt in FORMATS:
+            name, data, bt = gen_file(fmt, rng, 3)
+            p = os.path.join(d, fmt + '_' + name)
+            open(p, 'wb').write(data)
+            b = _buffer_type(bt)
+            f = bnp.open(p, lazy=True, **(dict(buffer_type=b) if b is not None else {}))
+            objs.append(('chunk:' + fmt, f.read_chunk()))
+            f.close()
+    finally:
+        shutil.rmtree(d, ignore_errors=True)
+    for label, o in objs:
+        roots = [r for r, _, _ in mem_snapshot(o)]
+        for a in _gc_arrays(o):
+            if a.dtype == object or a.size == 0 or a.dtype.kind not in 'biufSUc?':
+                continue
+            if not any(np.shares_memory(a, r) for r in roots):
+                missed.append('%s: %s%s not reached' % (label, a.dtype, a.shape))
+    return missed
